@@ -6,7 +6,9 @@ REPO_FIXES = ["7e35490", "ecea711", "fc01ecc", "cd27f47", "463d510", "2d5f2e1", 
 TECH = "bounded symbolic execution of the real Python code on z3 real proxies (own engine vf.symx) + SMT (z3; UF abstraction with exact NRA refinement); counterexamples replayed concretely"
 CLAIMED = {
     "C01": ("unit level: every _solv_outp_volt/_solv_inp_curr of the 11 kinds (const / 1-D / 2-D tables, phase modes, off flags, PMux k<=3) "
-            "proved equal to an independent reference model for ALL real parameter values; system level: see DESIGN 4/C01.",
+            "proved equal to an independent reference model for ALL real parameter values; system level: real solve() from an arbitrary converged iterate "
+            "(one inductive step) and the real loop on feed-forward shapes: per-row law and neighbour equations on a shape catalogue (thorough: every tree "
+            "<= 4 nodes); translator validation of every shim against the float path.",
             "Floats modelled as reals; numpy/scipy contract shims (DESIGN 1.4); io>=0; bounded table sizes and tree shapes.", "4/C01"),
     "C02": ("unit level: every _solv_pwr_loss with (vo, ii) produced by the component's own laws: P-L = |Vout|*Iout, 0<=L<=P, efficiency, "
             "temperature for ALL real values (exact NRA); system level: the same per row on the real solve() table plus total rows and the "
